@@ -576,7 +576,6 @@ func (s *state) visitForRange(node *ast.ForNode) {
 	// (the range arguments are outside the scope of the loop variable)
 	var limitExpr, initExpr, incrementExpr = s.block(limit), s.block(init), s.block(increment)
 	var varValue, varLimit, varIndex, varCount = s.scope.pushForRange(node.Var)
-	defer s.scope.pop()
 	s.jsln("var ", varLimit, " = ", limitExpr, ";")
 	s.jsln("var ", varCount, " = Math.max(0, Math.ceil((", varLimit, " - (", initExpr, ")) / (", incrementExpr, ")));")
 	s.jsln("for (var ", varValue, " = ", initExpr, ", ", varIndex, " = 0; ",
@@ -586,6 +585,8 @@ func (s *state) visitForRange(node *ast.ForNode) {
 	s.walk(node.Body)
 	s.indentLevels--
 	s.jsln("}")
+	// the loop variable is not in scope in the {ifempty} block.
+	s.scope.pop()
 	if node.IfEmpty != nil {
 		s.jsln("if (", varCount, " == 0) {")
 		s.indentLevels++
@@ -602,7 +603,6 @@ func (s *state) visitForeach(node *ast.ForNode) {
 		itemList,
 		itemListLen,
 		itemIndex = s.scope.pushForEach(node.Var)
-	defer s.scope.pop()
 	s.jsln("var ", itemList, " = ", listExpr, ";")
 	s.jsln("var ", itemListLen, " = ", itemList, ".length;")
 	if node.IfEmpty != nil {
@@ -615,6 +615,8 @@ func (s *state) visitForeach(node *ast.ForNode) {
 	s.walk(node.Body)
 	s.indentLevels--
 	s.jsln("}")
+	// the loop variable is not in scope in the {ifempty} block.
+	s.scope.pop()
 	if node.IfEmpty != nil {
 		s.indentLevels--
 		s.jsln("} else {")
